@@ -191,3 +191,124 @@ func c03R5(c *Ctx, r *Report) {
 	}
 	r.Floor(rule, n, 2, "arithmetic/bitwise case clauses")
 }
+
+func init() { props["C03"].Quick = append(props["C03"].Quick, c03R6) }
+
+// C03.R6: flow typing of `||` / `&&`. In the then-branch of `l || r` and in the else-branch of `l && r` only one
+// operand is known to hold / fail, so the context used there may keep a variable narrowed only if both sides narrow it.
+func c03R6(c *Ctx, r *Report) {
+	const rule = "C03.R6"
+	r.Describe(rule, "narrowing: the then-context of `||` and the else-context of `&&` are built by a combinator whose every Narrow(...) is behind two successful lookups (one per side)")
+	const pkgNarrow = "internal/semantics/narrowing"
+	an := c.LookupFn(pkgNarrow, "analyzeConditionRecursive")
+	narrow := c.LookupFn(pkgNarrow, "(*NarrowingContext).Narrow")
+	get := c.LookupFn(pkgNarrow, "(*NarrowingContext).GetNarrowedType")
+	if !r.Anchor(rule, an != nil && narrow != nil && get != nil, "narrowing.analyzeConditionRecursive / Narrow / GetNarrowedType") {
+		return
+	}
+	info := an.Info()
+	// bothSided(F): every Narrow call in F is dominated by >= 2 successful GetNarrowedType lookups on different receivers
+	bothSided := func(f *Fn) (bool, string) {
+		finfo := f.Info()
+		okVars := map[types.Object]string{} // ok variable -> receiver expression of the lookup
+		ast.Inspect(f.Decl.Body, func(x ast.Node) bool {
+			as, isAs := x.(*ast.AssignStmt)
+			if !isAs || len(as.Lhs) != 2 || len(as.Rhs) != 1 {
+				return true
+			}
+			cl, isCall := as.Rhs[0].(*ast.CallExpr)
+			if !isCall || !isCallTo(finfo, cl, get.Obj) {
+				return true
+			}
+			if id, isID := as.Lhs[1].(*ast.Ident); isID {
+				o := finfo.Defs[id]
+				if o == nil {
+					o = finfo.Uses[id]
+				}
+				if sel, isSel := cl.Fun.(*ast.SelectorExpr); isSel && o != nil {
+					okVars[o] = exprStr(sel.X)
+				}
+			}
+			return true
+		})
+		bad := ""
+		walkWithStack(f.Decl.Body, func(n ast.Node, stack []ast.Node) bool {
+			cl, isCall := n.(*ast.CallExpr)
+			if !isCall || !isCallTo(finfo, cl, narrow.Obj) {
+				return true
+			}
+			recvs := map[string]bool{}
+			for i := len(stack) - 1; i >= 0; i-- {
+				ifs, isIf := stack[i].(*ast.IfStmt)
+				if !isIf {
+					continue
+				}
+				// only when we are in the then-branch
+				inThen := false
+				ast.Inspect(ifs.Body, func(y ast.Node) bool {
+					if y == ast.Node(cl) {
+						inThen = true
+					}
+					return true
+				})
+				if !inThen {
+					continue
+				}
+				for _, cj := range conjuncts(ifs.Cond) {
+					if o := objOf(finfo, cj); o != nil {
+						if rcv, ok := okVars[o]; ok {
+							recvs[rcv] = true
+						}
+					}
+				}
+			}
+			if len(recvs) < 2 {
+				bad = exprStr(cl)
+			}
+			return true
+		})
+		return bad == "", bad
+	}
+	check := func(tok string, which int, label string) {
+		cc := clauseOf(an, tok, nil)
+		if !r.Anchor(rule, cc != nil, "analyzeConditionRecursive: case "+tok) {
+			return
+		}
+		var ret *ast.ReturnStmt
+		for _, st := range cc.Body {
+			if rs, ok := st.(*ast.ReturnStmt); ok && len(rs.Results) == 2 {
+				ret = rs
+			}
+		}
+		if !r.Anchor(rule, ret != nil, "case "+tok+": return then, else") {
+			return
+		}
+		// definition of the returned variable inside the clause
+		v := objOf(info, ret.Results[which])
+		var def *ast.CallExpr
+		for _, st := range cc.Body {
+			if as, ok := st.(*ast.AssignStmt); ok && len(as.Lhs) == 1 && len(as.Rhs) == 1 {
+				if o := objOf(info, as.Lhs[0]); o != nil && o == v {
+					def, _ = as.Rhs[0].(*ast.CallExpr)
+				} else if id, isID := as.Lhs[0].(*ast.Ident); isID && info.Defs[id] == v && v != nil {
+					def, _ = as.Rhs[0].(*ast.CallExpr)
+				}
+			}
+		}
+		if def == nil {
+			r.Fail(rule, an.Name(), label, c.pos(ret.Pos()), "undecidable: the context returned for this branch is not the result of a combinator call")
+			return
+		}
+		f := callee(info, def)
+		fn := c.FnOf(f)
+		if fn == nil {
+			r.Fail(rule, an.Name(), label, c.pos(def.Pos()), "undecidable: combinator "+exprStr(def.Fun)+" not found in the module")
+			return
+		}
+		ok, bad := bothSided(fn)
+		r.Check(ok, rule, an.Name(), label+" built by a both-sided combinator ("+f.Name()+")", c.pos(def.Pos()),
+			"the combinator "+f.Name()+" keeps a narrowing that only one operand establishes ("+bad+"): in `if a != none || b != none { let c: i32 = a; }` the variable a is treated as i32 although it may be none")
+	}
+	check("OR_TOKEN", 0, "then-context of ||")
+	check("AND_TOKEN", 1, "else-context of &&")
+}
